@@ -1,6 +1,7 @@
 package main
 
 import (
+	"fmt"
 	"strings"
 	"sync"
 
@@ -131,6 +132,16 @@ func c06Specials() []*gen.Expr {
 		gen.Func("reverse", gen.Func("sort", gen.Field("an"))),
 		gen.Func("sort", gen.Func("reverse", gen.Field("as"))),
 		gen.Func("merge", gen.Field("o"), gen.Field("o2"), gen.Chain(gen.Field("ao"), gen.StIndex(0))),
+		gen.Func("merge", gen.Field("o"), gen.LitJSON("{}"), gen.Field("o2")),
+		gen.Func("merge", gen.LitJSON("{}"), gen.Field("o"), gen.LitJSON("{}"), gen.Field("o2"), gen.LitJSON("{}")),
+		gen.Func("merge", gen.Field("o"), gen.Chain(gen.Field("o"), gen.StField("missing")), gen.Field("o2")),
+		gen.Func("merge", gen.Field("o"), gen.Field("o")),
+		gen.Func("merge", gen.Field("o"), gen.MultiHash(keyA("n"), []*gen.Expr{gen.Field("n")}), gen.Field("o")),
+		gen.Chain(gen.Field("ao"), gen.StListStar(), gen.StFunc("merge", gen.Current(), gen.Field("o"), gen.MultiHash(keyA("seen"), []*gen.Expr{gen.Field("s")}))),
+		gen.Func("not_null", gen.Field("z"), gen.Field("z"), gen.Field("ao")),
+		gen.Func("sort", gen.Func("not_null", gen.Field("z"), gen.Field("an"))),
+		gen.Func("reverse", gen.Func("to_array", gen.Field("as"))),
+		gen.Func("map", gen.ExpRef(gen.Func("merge", gen.Current(), gen.LitJSON("{}"), gen.LitJSON(`{"x":1}`))), gen.Field("ao")),
 		gen.Chain(gen.Func("merge", gen.Field("o"), gen.Field("o2")), gen.StField("an")),
 		gen.Chain(gen.Func("to_array", gen.Field("an")), gen.StSliceS("", "", "-1")),
 		gen.Chain(gen.Field("aa"), gen.StFlatten()),
@@ -238,7 +249,7 @@ func clipStr(s string, n int) string {
 
 func c06(r *mon.Run) {
 	r.Rule = "per case a fresh document (every array with spare capacity), one goroutine deep-reading every word of it (elements up to cap, map entries) with no synchronisation to the goroutine that calls Search; under -race any write to the document is a reported data race whether or not it changes a value; plus a canonical snapshot before/after, on value and error returns alike, and the compiled AST's s-expression before/after for literal-fed calls. " +
-		"Workload: every built-in function (every typed argument template) with every parameter fed from the document x 24 nestings (standalone, piped, in multi-selects, twice, inside a projection, inside an expression reference, inside a filter, followed by an error, next to an erroring sibling, and as the left side of every projection kind, of filters that drop elements and of an index …), the same with literals, 27 special compositions (sorts of sorts, failing by-expression sorts, flatten/merge/to_array aliasing), seeded random trees on typed documents. Non-trivial = distinct expressions that reached the interpreter and returned."
+		"Workload: every built-in function (every typed argument template) with every parameter fed from the document x 24 nestings (standalone, piped, in multi-selects, twice, inside a projection, inside an expression reference, inside a filter, followed by an error, next to an erroring sibling, and as the left side of every projection kind, of filters that drop elements and of an index …), the same with literals, 27 special compositions (sorts of sorts, failing by-expression sorts, flatten/merge/to_array aliasing), every built-in function on 23 typed operands of Go-struct documents (typed slices, structs, pointers; 1 and 2 arguments); seeded random trees on typed documents. Non-trivial = distinct expressions that reached the interpreter and returned."
 	r.Floor = 300
 	r.Assumptions = []string{"the Go race detector reports conflicting accesses without a happens-before edge regardless of their timing; harness goroutines share nothing but the document",
 		"built with -race; without the race log (VH_RACELOG) only the snapshot monitor is active and the run is reported as inconclusive for the 'no write' clause"}
@@ -287,7 +298,63 @@ func c06(r *mon.Run) {
 			doc := docs.NewRand(rng).TypedDoc(0)
 			c06Case(r, t, rl, "random-trees", i, tree, doc, false)
 		}}
+	// Go-struct / typed-slice documents: handlers that take the caller's typed slice as is (or a
+	// conversion that aliases it) can write into it
+	fns := ref.FunctionNames()
+	O := len(c18Operands)
+	nsd := len(fns) * (O + O*3)
+	sd := mon.Workload{Name: "struct-documents", N: nsd, Serial: true, Batch: 200,
+		Describe: func(i int) string { return fmt.Sprint("struct-documents case ", i) },
+		Do: func(i int, t *mon.Tally) {
+			fn := fns[i/(O+O*3)]
+			k := i % (O + O*3)
+			var expr string
+			if k < O {
+				expr = fn + "(" + c18Operands[k] + ")"
+			} else {
+				k -= O
+				a := c18Operands[k/3]
+				b := []string{"Strs", "Flts", "Ins"}[k%3]
+				switch fn {
+				case "map":
+					expr = "map(&@, " + a + ")"
+				case "sort_by", "max_by", "min_by":
+					expr = fn + "(" + a + ", &" + pickKey(a) + ")"
+				default:
+					expr = fn + "(" + a + ", " + b + ")"
+				}
+			}
+			rng := gen.DeriveN(r.Seed, "c06sdoc", i%17)
+			form := i % 2
+			mk := func() interface{} { return docs.StructDoc(gen.DeriveN(r.Seed, "c06sdoc", i%17), form) }
+			_ = rng
+			doc := mk()
+			t.Eval()
+			o, changed := searchWatched(expr, nil, doc)
+			if o.Panicked {
+				return // C18's business
+			}
+			onWhat := "success"
+			if o.Err != nil {
+				onWhat = "error return"
+			}
+			if changed || mon.Snapshot(doc) != mon.Snapshot(mk()) {
+				r.Violate(&mon.Violation{Workload: "struct-documents", Index: i, API: "Search", Expr: expr, DocDesc: clipStr(mon.Snapshot(mk()), 400), Expected: "struct document unchanged (" + onWhat + ")",
+					Observed: "after the call: " + clipStr(mon.Snapshot(doc), 600), Class: "struct-documents: snapshot changed on " + onWhat})
+				return
+			}
+			if rep := rl.Grown(); rep != "" {
+				n, frames := mon.RaceSummary(rep, "go-jmespath")
+				r.Violate(&mon.Violation{Workload: "struct-documents", Index: i, API: "Search", Expr: expr, DocDesc: clipStr(mon.Snapshot(mk()), 400),
+					Expected: "no write to the struct document during the call (" + onWhat + ")", Observed: "race detector: " + mon.Show(float64(n)) + " report(s); library frames: " + strings.Join(frames, ", "),
+					Detail: clipStr(rep, 6000), Class: "struct-documents: write detected by the race detector"})
+				return
+			}
+			if o.Err == nil {
+				t.Nontrivial("sd:" + expr)
+			}
+		}}
 	_ = ref.Canon
-	r.Exec(fm, rnd)
+	r.Exec(fm, sd, rnd)
 	r.Extra["race_log_active"] = rl != nil
 }
